@@ -298,6 +298,7 @@ func runC25(r *simkit.R) {
 	if r.Violated() {
 		return
 	}
+	w.reportPanic()
 	if !finished {
 		r.Failf("hang", "PUT does not return", "the PUT did not return within 3 simulated minutes after the last delivery (deadline %s)", deadline)
 	}
@@ -346,6 +347,22 @@ func runC25(r *simkit.R) {
 	}
 	if total >= 3 && (bad > 0 || shared) {
 		r.Nontrivial()
+	}
+	for _, a := range acks {
+		if a.rule >= 0 && a.rule < len(pol.ec) && a.parent == resID {
+			l := pol.lists[len(pol.rep)+a.rule]
+			if a.part >= 0 && a.part < len(l) && l[a.part] != a.node {
+				r.Probe("EC part acknowledged by a reserve node")
+			}
+		} else if a.rule < 0 {
+			for i, c := range pol.rep {
+				for pos, n := range pol.lists[i] {
+					if n == a.node && pos >= c {
+						r.Probe("REP copy acknowledged by a reserve node")
+					}
+				}
+			}
+		}
 	}
 	if len(w.posts) > 0 {
 		r.Probe("post-placement replication requested")
@@ -594,6 +611,9 @@ func c25Judge(pol *c25Policy, kind, partRule, partIdx int, res oid.ID, acks []c2
 				total++
 			} else if tw == "" {
 				tw = twin(j)
+				if tw == "" && strings.HasPrefix(ecWhy[j], "EC-elsewhere") {
+					tw = ecWhy[j] + "; "
+				}
 			}
 			continue
 		}
